@@ -27,10 +27,22 @@ ASSUMPTIONS = [
     "no exception is possible for bases of non-empty permutations - coreApplies_total)",
 ]
 PARTIAL = [
-    "A1 shapes of bstrip (RdCdCu, RdCu) and the mesh-pattern / last-component conditions of Rd2134, Ru2143 against "
-    "index-free definitions - evaluated by the oracle (independent definitions) on all permutations of length <= 6; "
-    "proved: the sum/skew (in)decomposable and '1 plus q' shapes (zeroPlusSumind_iff_def, zeroPlusSkewind_iff_def, "
-    "zeroPlusPerm_iff_def) and the '1 plus q' decomposition of Rd2134 / Ru2143 (validRd2134_iff, validRu2143_iff)",
+    "A1 shapes: nothing left unproved - every is_valid_extension is PROVED equal to an index-free definition for "
+    "permutations of every length (valid_iff_shape_def: all eight strategies against Shape s; coreApplies_iff_shape: "
+    "the reported strategy against needed patterns + Shape over the D8 orbit).  Pieces: sum/skew (in)decomposable and "
+    "'1 plus q' (isSumDecomposable_iff_def, isSkewDecomposable_iff_def, zeroPlusSumind_iff_def, zeroPlusSkewind_iff_def, "
+    "zeroPlusPerm_iff_def); bstrip = 'r if p = r (+) 1 else p' (bstrip_iff_def), RdCdCu = '1 (+) q (+) 1 or 1 (+) q, q "
+    "non-empty, q sum-indecomposable' (validRdCdCu_iff_def), RdCu (validRdCu_iff_def, validRdCu_iff_joint); the mesh "
+    "patterns _M_PATT via the proved mesh-occurrence semantics (C04.containsMesh_iff; the same through C03's "
+    "mem_meshOccInPerm_iff / mem_meshOccs_iff, incl. the full occurrence list, in Lemmas/C19MeshC03.lean): box "
+    "form (meshRd_iff_boxes, meshRu_iff_boxes), 'max immediately followed by second max' resp. the reverse "
+    "(meshRd_iff_adjacent, meshRu_iff_adjacent, meshRd_iff_factor, meshRu_iff_factor); last_sum_component / "
+    "last_skew_component = the unique c with q = a (+) c resp. a (-) c, c non-empty indecomposable "
+    "(lastSumComponent_iff_def, lastSkewComponent_iff_def, lastComponent_unique); 'in Av(12)/Av(21)' = "
+    "decreasing/increasing (inAv_iff_monotone, notInAv_iff_def); Rd2134 / Ru2143 assembled "
+    "(validRd2134_iff_shape_def, validRu2143_iff_shape_def).  Only evaluated (oracle, all permutations of length <= 6): "
+    "that the Python functions compute what the Lean model computes (the correspondence itself); inputs that are not "
+    "permutations are outside the theorems (IsPerm hypothesis)",
     "A1 `p not in Av(B)` is modelled as `p avoids Basis(B)` (C02); proved from there: appliesToSym_iff, coreApplies_iff",
     "A2 invariance under the eight symmetries is PROVED for every strategy and both searches (coreApplies_sym, "
     "insEnc_applies_sym, appliesByName_sym, findStrategies_sym, findStrategies_quick_sym) with has_finite_simples as "
